@@ -37,7 +37,7 @@ structure OCtx where
 mutual
 def collectSel (s : SchemaD) (parent : Option String) : Sel → FMap × List String → FMap × List String
   | .field alias name args _ hasSub ssid sub, (fm, fr) =>
-    let fdef := parent.bind fun p => fieldOf s p name
+    let fdef := parent.bind fun p => ovFieldOf s p name
     let rn := match alias with | some a => if a != "" then a else name | none => name
     let e : FEntry := { parent, name, args, hasSub, ssid, sub, fdef }
     (AL.modify fm rn [] (· ++ [e]), fr)
